@@ -287,26 +287,42 @@ def r20_3(ctx, fx):
     for n in incs:
         ok, why = guards.guarded(fn, n, is_sum, is_b, "<=")
         ctx.ob("R20.3", "extract_next_batch/count-incremented-only-if-total+next<=max", ok, site=fn.site(n), cfg=fx.cfg, detail=why)
-    # the running total accumulates the length that was compared
-    cmp_lens = set()
-    for node, dest, rel in guards.comparisons(fn, is_sum, is_b):
-        s = fn.stmt(node)
-        for k in ("a", "b"):
-            cmp_lens |= len_calls_in(fn, s["rv"][k])
-    acc_lens = set()
+    # every running total accumulates what was compared: for each comparison `acc + x <=> bound` the accumulator `acc` (a local
+    # assigned more than once) is updated by adding an `x` with the same len() sources
+    def acc_of(o):
+        """(accumulator locals, len-call locals, const addends) in the one-step arithmetic slice of a sum operand"""
+        accs, consts = set(), set()
+        for l in slice_locals(fn, o, strict=True):
+            sd = fn.single_def(l)
+            if sd is not None and sd[1] == "assign" and sd[2]["rv"]["r"] == "bin" and sd[2]["rv"]["op"].startswith("Add"):
+                for k_ in ("a", "b"):
+                    for x in slice_locals(fn, sd[2]["rv"][k_], strict=True):
+                        if fn.single_def(x) is None and not (1 <= x <= fn.argc):
+                            accs.add(x)
+        return accs
+    updates = {}   # accumulator local -> set of len-call locals added to it
     n_acc = 0
     for node, s in fn.assigns():
-        # `acc = tmp.0` with tmp = Add(acc, x): an update of a variable assigned more than once (the running total)
         if s["rv"]["r"] != "use" or len(s["lhs"]) != 1 or fn.single_def(s["lhs"][0]) is not None or s["lhs"][0] in cnt_locals:
             continue
         src = s["rv"]["o"].get("m") or s["rv"]["o"].get("c")
         sd = fn.single_def(src[0]) if src else None
         if sd and sd[1] == "assign" and sd[2]["rv"]["r"] == "bin" and sd[2]["rv"]["op"].startswith("Add"):
             n_acc += 1
-            acc_lens |= len_calls_in(fn, sd[2]["rv"]["a"]) | len_calls_in(fn, sd[2]["rv"]["b"])
+            updates.setdefault(s["lhs"][0], set()).update(len_calls_in(fn, sd[2]["rv"]["a"]) | len_calls_in(fn, sd[2]["rv"]["b"]))
     ctx.anchor("R20.3", "extract_next_batch: update of the running total", n_acc, 1, cfg=fx.cfg)
-    ctx.ob("R20.3", "extract_next_batch/accumulates-the-compared-length", bool(cmp_lens) and acc_lens == cmp_lens, site=fn.site(d.node), cfg=fx.cfg,
-           detail="lengths compared: %s accumulated: %s" % (sorted(cmp_lens), sorted(acc_lens)))
+    is_any_bound = lambda f, o: is_b(f, o) or any(r[0] == "const" and str(r[1]).endswith("MAX_MESSAGE_SIZE") for r in f.roots(o))
+    pairs = []
+    for node, dest, rel in guards.comparisons(fn, is_sum, is_any_bound):
+        st = fn.stmt(node)
+        for k in ("a", "b"):
+            o = st["rv"][k]
+            if is_sum(fn, o):
+                for a in acc_of(o):
+                    pairs.append((a, len_calls_in(fn, o), fn.site(node)))
+    okp = bool(pairs) and all(updates.get(a) is not None and lens <= updates.get(a, set()) and updates.get(a) <= lens for a, lens, _ in pairs)
+    ctx.ob("R20.3", "extract_next_batch/accumulates-the-compared-length", okp, site=fn.site(d.node), cfg=fx.cfg,
+           detail="(accumulator, lengths compared, lengths accumulated): %s" % [(a, sorted(l_), sorted(updates.get(a, []))) for a, l_, _ in pairs])
     pops = fn.calls(r"VecDeque(<.*>)?::pop_front$")
     ctx.anchor("R20.3", "extract_next_batch: pop_front of oversized blocks", len(pops), 1, cfg=fx.cfg)
     for p in pops:
